@@ -31,13 +31,15 @@ type Txn struct {
 // Block is a declared block. Commit=false: executed but never committed
 // (abandoned block); lookups that have to pass through it can never hit.
 type Block struct {
-	Hash   string `json:"h"`
-	Prev   string `json:"prev"` // "" for none; may name a hash that is never declared (gap)
-	Round  int64  `json:"round"`
-	Txns   []Txn  `json:"txns"`
-	Commit bool   `json:"commit"`
-	Twice  bool   `json:"twice,omitempty"`  // executed and committed a second time through another BlockCache object
-	Rename bool   `json:"rename,omitempty"` // created under a temporary hash, SetBlockHash later (miner path)
+	Hash  string `json:"h"`
+	Prev  string `json:"prev"` // "" for none; may name a hash that is never declared (gap)
+	Round int64  `json:"round"`
+	Txns  []Txn  `json:"txns"`
+	// Direct: values set on the block cache itself (BlockCache.Set) when the block starts, before any transaction
+	Direct []Write `json:"direct,omitempty"`
+	Commit bool    `json:"commit"`
+	Twice  bool    `json:"twice,omitempty"`  // executed and committed a second time through another BlockCache object
+	Rename bool    `json:"rename,omitempty"` // created under a temporary hash, SetBlockHash later (miner path)
 }
 
 // Tree is the declaration.
@@ -68,6 +70,9 @@ func (t *Tree) Block(h string) *Block { return t.byHash[h] }
 // transactions applied in declaration order.
 func (b *Block) Content() map[string]Entry {
 	c := map[string]Entry{}
+	for _, w := range b.Direct {
+		c[w.Key] = Entry{Val: w.Val}
+	}
 	for _, tx := range b.Txns {
 		if !tx.Commit {
 			continue
@@ -153,6 +158,11 @@ func Gen(rt *rapid.T, p Params) *Tree {
 			b.Prev = t.Blocks[gen.Uniform(rt, 0, i-1, "parent")].Hash
 		default:
 			b.Prev = t.Blocks[i-1].Hash
+		}
+		if gen.Chance(rt, 15, "direct") {
+			// the block writes a value itself, before its transactions run
+			valSeq++
+			b.Direct = append(b.Direct, Write{Key: gen.Pick(rt, t.Keys, "dk"), Val: fmt.Sprintf("v%d", valSeq)})
 		}
 		ntx := gen.Uniform(rt, 0, 3, "ntx")
 		for j := 0; j < ntx; j++ {
